@@ -255,6 +255,12 @@ def finding_of(stack, c, ops, why):
     return None
 
 
+SUBSCRIPT = [[(0, 0, b"k", b"", 0, False, None), (20, b"k")], [(0, 0, b"k", b"0", 0, False, None), (20, b"k")], [(20, b"zz")],
+             [(0, 0, b"k", 0, 0, False, None), (20, b"k")], [(0, 0, b"k", "", 0, False, None), (20, b"k")],
+             [(21, b"k", b"v"), (3, b"k", None), (20, b"k")], [(0, 0, b"k", b"v", 0, False, None), (22, b"k"), (3, b"k", b"gone")], [(22, b"zz")],
+             [(21, "k\xe9", b"v"), (20, "k\xe9")], [(21, b"bad key", b"v")], [(20, b"bad key")]]
+
+
 def search(ctx):
     """The property on the real classes: every stack against a plain Client, same configuration, same byte-level server."""
     found = []
@@ -273,6 +279,16 @@ def search(ctx):
             why = compare(stack, allc[0], ops)
             if why:
                 record(stack, allc[0], ops, why)
+    # client[key], client[key] = value, del client[key] (HashClient does not offer them): hits with falsy values, misses, illegal keys
+    for ops in SUBSCRIPT:
+        for ci, c in enumerate(allc):
+            for stack in STACKS:
+                if stack.startswith("HashClient"):
+                    continue
+                n += 1
+                why = compare(stack, c, ops)
+                if why:
+                    record(stack, c, ops, why)
     for si, ops in enumerate(seqs):
         for ci, c in enumerate(allc):
             if si >= len(grid_ops()) and (si + ci) % (8 if ctx.quick else 2):
